@@ -6,6 +6,7 @@ import (
 	"math/rand"
 	"sort"
 	"strings"
+	"sync"
 	"time"
 
 	"github.com/google/uuid"
@@ -22,12 +23,15 @@ func init() {
 // ---- fault-injecting store wrappers (shared with C13) --------------------------------------------
 
 type writeBudget struct {
+	mu     sync.Mutex
 	left   int // writes that still succeed; <0 = unlimited
 	writes int
 	trace  []string
 }
 
 func (b *writeBudget) allow(what string) error {
+	b.mu.Lock()
+	defer b.mu.Unlock()
 	if b.left == 0 {
 		return fmt.Errorf("injected fault before %s", what)
 	}
